@@ -253,12 +253,36 @@ func (vc *VC) execInvoke(fr *Frame, st *State, c *ssa.CallCommon, recv string, a
 		}
 	}
 	if len(impls) == 0 {
-		vc.event(fr, st, "invoke."+c.Method.Name(), append([]string{fmt.Sprintf("(if_val %s)", recv)}, args...), append([]types.Type{tInt}, sigTypes(c.Signature(), false)...)...)
-		if res, ok := vc.modelInvoke(fr, st, c, recv, args, pos); ok {
-			vc.setResults(fr, v, res)
-			return
+		evName := "invoke." + c.Method.Name()
+		vc.atCallNamed(fr, st, evName, append([]types.Type{tInt}, sigTypes(c.Signature(), false)...), append([]string{fmt.Sprintf("(if_val %s)", recv)}, args...), c.Pos())
+		idx := ""
+		resKey := fmt.Sprintf("G_arg_%s_%d", sanitizeID(evName), resultSlot)
+		if vc.eventNames[evName] && vc.svSort[resKey] != "" {
+			idx = vc.get(st, vc.eventCounter(evName))
 		}
-		res := vc.externalCall(fr, st, "interface method "+typeKey(c.Value.Type())+"."+c.Method.Name(), c.Signature(), args, c.Args)
+		vc.event(fr, st, evName, append([]string{fmt.Sprintf("(if_val %s)", recv)}, args...), append([]types.Type{tInt}, sigTypes(c.Signature(), false)...)...)
+		res, ok := vc.modelInvoke(fr, st, c, recv, args, pos)
+		if !ok {
+			res = vc.externalCall(fr, st, "interface method "+typeKey(c.Value.Type())+"."+c.Method.Name(), c.Signature(), args, c.Args)
+		}
+		if idx != "" && len(res) > 0 && vc.svSort[resKey] == "(Array Int Int)" {
+			// callres("invoke.M", k): first result of the k-th such call (a boolean is recorded as 1/0)
+			r := res[0]
+			rec := true
+			switch vc.sortOf(c.Signature().Results().At(0).Type()) {
+			case "Slice":
+				r = fmt.Sprintf("(s_arr %s)", r)
+			case "Iface":
+				r = fmt.Sprintf("(if_val %s)", r)
+			case "Bool":
+				r = fmt.Sprintf("(ite %s 1 0)", r)
+			case "Real":
+				rec = false
+			}
+			if rec {
+				vc.set(st, resKey, fmt.Sprintf("(store %s %s %s)", vc.get(st, resKey), idx, r))
+			}
+		}
 		vc.setResults(fr, v, res)
 		return
 	}
@@ -1055,10 +1079,22 @@ func (vc *VC) modExternal(c *ssa.CallCommon, out map[string]bool) {
 // atCall checks the contract's "atcall <callee> <expr>" assertions in the state just before the call.
 // Inside the expression, arg0, arg1, ... name the call's arguments (arg0 is the receiver of a method).
 func (vc *VC) atCall(fr *Frame, st *State, calleeFn *ssa.Function, args []string, pos token.Pos) {
+	var ptypes []types.Type
+	if r := calleeFn.Signature.Recv(); r != nil {
+		ptypes = append(ptypes, r.Type())
+	}
+	for i := 0; i < calleeFn.Signature.Params().Len(); i++ {
+		ptypes = append(ptypes, calleeFn.Signature.Params().At(i).Type())
+	}
+	vc.atCallNamed(fr, st, shortFuncName(calleeFn), ptypes, args, pos)
+}
+
+// atCallNamed checks the "atcall <name>" clauses before a call event of that name (static callee, or "invoke.M" for a
+// method call through an interface that is not resolved to a module implementation).
+func (vc *VC) atCallNamed(fr *Frame, st *State, name string, ptypes []types.Type, args []string, pos token.Pos) {
 	if vc.inSpec > 0 {
 		return
 	}
-	name := shortFuncName(calleeFn)
 	var fc *FuncContract
 	if fr.top {
 		fc = vc.fc
@@ -1076,13 +1112,6 @@ func (vc *VC) atCall(fr *Frame, st *State, calleeFn *ssa.Function, args []string
 	nf.specEnv = map[string]specVal{}
 	for k, v := range fr.specEnv {
 		nf.specEnv[k] = v
-	}
-	var ptypes []types.Type
-	if r := calleeFn.Signature.Recv(); r != nil {
-		ptypes = append(ptypes, r.Type())
-	}
-	for i := 0; i < calleeFn.Signature.Params().Len(); i++ {
-		ptypes = append(ptypes, calleeFn.Signature.Params().At(i).Type())
 	}
 	for i, a := range args {
 		var t types.Type = tInt
